@@ -143,11 +143,105 @@ Definition translate_columns (datecol : str) (ids : list Q) (times dates : list 
       else Err OtherErr                                   (* None / mixed column: '.dt' AttributeError, TypeError *)
   end.
 
+(* ---- the same computation in binary64 (what the code really does) --------------------------------------------
+   fl = round to nearest even.  float(h) + float(m)/60; the split of the hours of the day into hour / minute / second /
+   microsecond / nanosecond by repeated truncation (NOT rounding); Timestamps as integer nanoseconds; the difference
+   converted to float, divided by 1e9 and by 3600. *)
+Definition fl (x : Q) : Q := round_double x.
+Definition qtrunc (x : Q) : Z := Z.quot (Qnum x) (Zpos (Qden x)).
+
+Definition time_value_f (t : str) : res Q :=
+  if existsb (N.eqb c_colon) t then
+    match split_by (N.eqb c_colon) t with
+    | [h; m] => match pyfloat h, pyfloat m with
+                | Some a, Some b => Ok (fl (fl a + fl (fl b / 60)))%Q
+                | _, _ => Err ValueErr
+                end
+    | _ => Err DatasetError
+    end
+  else match pyfloat t with Some a => Ok (fl a) | None => Err ValueErr end.
+
+(* nanoseconds since midnight of a time of day given in (float) hours *)
+Definition ns_of_hours (tv : Q) : Z :=
+  let h := qtrunc tv in
+  let x1 := fl (fl (tv - inject_Z h) * 60)%Q in
+  let mi := qtrunc x1 in
+  let x2 := fl (fl (x1 - inject_Z mi) * 60)%Q in
+  let s := qtrunc x2 in
+  let x3 := fl (fl (x2 - inject_Z s) * 1000000)%Q in
+  let us := qtrunc x3 in
+  let x4 := fl (fl (x3 - inject_Z us) * 1000)%Q in
+  let n := qtrunc x4 in
+  (((h * 60 + mi) * 60 + s) * 1000000000 + us * 1000 + n)%Z.
+
+Inductive fval :=
+| FNum (hours : Q)                 (* day-number date: fl (tv + fl (fl date * 24)) *)
+| FStamp (ns : Z)                  (* Timestamp: nanoseconds since day 0 *)
+| FNone.
+
+Definition date_time_value_f (datecol : str) (time date : str) : res fval :=
+  match time_value_f time with
+  | Err e => Err e
+  | Ok tv =>
+      let parts := split_by (fun c => negb (is_digit c)) date in
+      if (match date with c :: _ => N.eqb c c_minus | [] => false end) || Nat.eqb (length parts) 1 then
+        match pyfloat date with Some dnum => Ok (FNum (fl (tv + fl (fl dnum * 24)))%Q) | None => Err ValueErr end
+      else match parts with
+           | [_; _] => Ok FNone
+           | [a; b; c] =>
+               let '(ys, ms, ds) := ymd_parts datecol a b c in
+               match year_of ys, pyint_digits ms, pyint_digits ds with
+               | Some y, Some m, Some d =>
+                   if valid_date y m d && Qle_bool 0 tv && negb (Qle_bool 24 tv)
+                   then Ok (FStamp (day_number y m d * 86400000000000 + ns_of_hours tv)%Z) else Err ValueErr
+               | _, _, _ => Err ValueErr
+               end
+           | _ => Err DatasetError
+           end
+  end.
+
+Fixpoint first_of_f (id : Q) (ids : list Q) (vals : list fval) : option fval :=
+  match ids, vals with
+  | i :: ids', v :: vals' => if Qeq_bool i id then Some v else first_of_f id ids' vals'
+  | _, _ => None
+  end.
+Definition all_fnum (l : list fval) : bool := forallb (fun v => match v with FNum _ => true | _ => false end) l.
+Definition all_fstamp (l : list fval) : bool := forallb (fun v => match v with FStamp _ => true | _ => false end) l.
+(* (b - a).total_seconds() / 3600 : int64 nanoseconds -> float, / 1e9, / 3600 *)
+Definition hours_f (a b : fval) : Q :=
+  match a, b with
+  | FStamp x, FStamp y => Qred (fl (fl (fl (inject_Z (y - x)) / 1000000000) / 3600))%Q
+  | _, _ => (0 # 1)%Q
+  end.
+Definition translate_columns_f (datecol : str) (ids : list Q) (times dates : list str) : res (list Q) :=
+  match mapM (fun td => date_time_value_f datecol (fst td) (snd td)) (combine times dates) with
+  | Err e => Err e
+  | Ok vals =>
+      if all_fstamp vals then
+        Ok (map (fun iv => match first_of_f (fst iv) ids vals with
+                           | Some f => hours_f f (snd iv)
+                           | None => (0 # 1)%Q end) (combine ids vals))
+      else if all_fnum vals then Ok (map (fun v => match v with FNum h => Qred h | _ => (0 # 1)%Q end) vals)
+      else Err OtherErr
+  end.
+
+(* the split by truncation loses nothing for this time of day: ns_of_hours tv = tv * 3600e9 exactly *)
+Definition split_exact (tv : Q) : bool := Qeq_bool (inject_Z (ns_of_hours tv)) (tv * 3600000000000).
+
 (* ---- translate_nmtran_time: the TIME column of the resulting dataset ----------------------------------------
    datecol = None: no DATE/DAT1/DAT2/DAT3 column.  The TIME column then has datatype float64 in the datainfo (it
    is 'nmtran-time' only next to a date column), _find_time_and_date_columns finds nothing and the function
    returns the model unchanged: clock times stay text (defect, C13-TIME-CLOCK-NO-DATE). *)
 Definition translate_model (datecol : option str) (ids : list Q) (times dates : list str) : res (list cell) :=
+  match datecol with
+  | None => Ok (map CStr times)
+  | Some dc => match translate_columns_f dc ids times dates with
+               | Ok hs => Ok (map CNum hs)
+               | Err e => Err e
+               end
+  end.
+(* the exact-rational reading of the same code (no float arithmetic): what Time theorems of round 1 speak about *)
+Definition translate_model_exact (datecol : option str) (ids : list Q) (times dates : list str) : res (list cell) :=
   match datecol with
   | None => Ok (map CStr times)
   | Some dc => match translate_columns dc ids times dates with
@@ -198,11 +292,15 @@ Record tcase := mkT {
   t_datecol : option str; t_ids : list Q; t_times : list str; t_dates : list str;
   t_obs : res (list cell) }.
 
-(* float arithmetic of the code (h + m/60; truncating split into h/min/s/us/ns) is not modelled: 1e-9 h *)
+(* tag 31: the binary64 model against the code, EXACT equality of the doubles; tag 36: the exact-rational model
+   within 1e-9 h; tag 34: the calendar specification within 1e-9 h (gross errors); tag 35: the result is not within
+   4 ulp of the calendar difference (the truncating split, C13-TIME-SPLIT-TRUNCATION) *)
 Definition near (q d : Q) : bool := Qle_bool (Qabs (q - d)) (1 # 1000000000).
-Definition tcell_agree (m o : cell) : bool :=
+Definition near_ulp (q d : Q) : bool :=
+  Qeq_bool q d || Qle_bool (Qabs (q - d)) (Qabs (fl q) * (4 # 4503599627370496)).
+Definition tcell_agree_by (f : Q -> Q -> bool) (m o : cell) : bool :=
   match m, o with
-  | CNum q, CNum d => near q d
+  | CNum q, CNum d => f q d
   | CStr a, CStr b => str_eqb a b
   | CNaN, CNaN => true
   | _, _ => false
@@ -212,12 +310,13 @@ Definition terr_eqb (a b : err) : bool :=
   | DatasetError, DatasetError | KeyErr, KeyErr | EmptyData, EmptyData | ValueErr, ValueErr | OtherErr, OtherErr => true
   | _, _ => false
   end.
-Definition tres_agree (m o : res (list cell)) : bool :=
+Definition tres_agree_by (f : Q -> Q -> bool) (m o : res (list cell)) : bool :=
   match m, o with
-  | Ok a, Ok b => Nat.eqb (length a) (length b) && forallb (fun xy => tcell_agree (fst xy) (snd xy)) (combine a b)
+  | Ok a, Ok b => Nat.eqb (length a) (length b) && forallb (fun xy => tcell_agree_by f (fst xy) (snd xy)) (combine a b)
   | Err a, Err b => terr_eqb a b
   | _, _ => false
   end.
+Definition tres_agree := tres_agree_by near.
 Definition g_three_parts (c : tcase) : bool :=
   forallb (fun d => negb (Nat.eqb (length (split_by (fun x => negb (is_digit x)) d)) 2)) (t_dates c).
 Definition g_has_date (c : tcase) : bool := match t_datecol c with Some _ => true | None => false end.
@@ -228,7 +327,15 @@ Definition g_no_daynum (c : tcase) : bool :=
   | Some _ => forallb (fun d => negb ((match d with x :: _ => N.eqb x c_minus | [] => false end) ||
                                       Nat.eqb (length (split_by (fun x => negb (is_digit x)) d)) 1)) (t_dates c)
   end.
+(* every clock time of the case splits exactly *)
+Definition g_split_exact (c : tcase) : bool :=
+  forallb (fun t => match time_value_f t with Ok tv => split_exact tv | Err _ => true end) (t_times c).
 Definition time_verdict (c : tcase) : list nat :=
-  (if tres_agree (translate_model (t_datecol c) (t_ids c) (t_times c) (t_dates c)) (t_obs c) then [] else [31]) ++
-  (if tres_agree (spec_translate (t_datecol c) (t_ids c) (t_times c) (t_dates c)) (t_obs c) then [] else [34]) ++
-  (if g_three_parts c then [] else [221]) ++ (if g_has_date c then [] else [222]) ++ (if g_no_daynum c then [] else [223]).
+  let o := t_obs c in
+  (if tres_agree_by Qeq_bool (translate_model (t_datecol c) (t_ids c) (t_times c) (t_dates c)) o then [] else [31]) ++
+  (if tres_agree (translate_model_exact (t_datecol c) (t_ids c) (t_times c) (t_dates c)) o then [] else [36]) ++
+  (if tres_agree (spec_translate (t_datecol c) (t_ids c) (t_times c) (t_dates c)) o then [] else [34]) ++
+  (if tres_agree_by near_ulp (spec_translate (t_datecol c) (t_ids c) (t_times c) (t_dates c)) o ||
+      negb (tres_agree (spec_translate (t_datecol c) (t_ids c) (t_times c) (t_dates c)) o) then [] else [35]) ++
+  (if g_three_parts c then [] else [221]) ++ (if g_has_date c then [] else [222]) ++ (if g_no_daynum c then [] else [223]) ++
+  (if g_split_exact c then [] else [225]).
